@@ -474,6 +474,25 @@ func checkCall(c callCase) (msg string, v string) {
 				}
 			}
 		}
+		if fn.Err == "" && out.Err == nil {
+			// the same parsed tree for another caller: a new runner whose data holds ANOTHER function object under the
+			// same name (own recorder) - the call goes to the function found in the current data
+			rec3 := &spec.Recorder{}
+			fn3 := c.Fn
+			r3 := formula.NewRunner()
+			r3.SetThis(c11Data(&fn3, rec3))
+			before := len(rec.Calls)
+			out3 := obs.Eval(r3, context.Background(), p.Src.Expression)
+			n3 := 0
+			for _, cl := range rec3.Calls {
+				if cl.Name == fn.Name {
+					n3++
+				}
+			}
+			if out3.Panic != nil || out3.Err != nil || n3 != 1 || len(rec.Calls) != before {
+				return fmt.Sprintf("%s with %s: the same parsed tree evaluated by a new runner whose data holds another function object under that name invoked the new function %d times and the first caller's function %d more times (result %s)", text, sig, n3, len(rec.Calls)-before, out3), v
+			}
+		}
 		if fn.Err != "" {
 			if out.Err == nil || !strings.Contains(out.Err.Error(), fn.Name) {
 				return fmt.Sprintf("%s with %s returning an error: evaluation gave %s, want an error naming the function", text, sig, out), v
